@@ -440,39 +440,111 @@ theorem findViews_spec (reg : List Registered) (sc : View.Scope) (i : Instr) :
 
 /-! ## Streams -/
 
-theorem exported_at_most_one (en : Bool) (reg : List Registered) (sc : View.Scope) (i : Instr) (keys : List Bytes) :
-    (exported en reg sc i keys).length ≤ 1 := by
-  unfold exported
-  split
-  · simp
-  · split <;> simp
+/-- D09: `Meter::storage_registry_` has one entry per stream (instrument name, type, value type, view index) -/
+theorem storage_registry_per_stream : Gen.storageRegistryPerStream = true := rfl
 
-/-- **the view's stream is exported** — as the code is, only under the extra hypothesis that no view registered *later*
-    applies to the same instrument (D09): then the instrument's one exported stream is the one shaped by this view -/
-theorem view_stream_exported_partial (pre post : List Registered) (r : Registered) (sc : View.Scope) (i : Instr)
+theorem exported_eq (reg : List Registered) (sc : View.Scope) (i : Instr) (keys : List Bytes)
+    (hv : validInstrument i.name i.unit = true) :
+    exported true reg sc i keys = (findViews reg sc i).map (streamOf i · keys) := by
+  unfold exported storages; simp [hv]
+
+/-- **every registered view that applies to an instrument yields its own exported stream**, shaped by that view —
+    whatever other views are registered before or after it -/
+theorem view_stream_exported (reg : List Registered) (r : Registered) (sc : View.Scope) (i : Instr) (keys : List Bytes)
+    (hr : r ∈ reg) (hv : validInstrument i.name i.unit = true) (ha : applies r sc i = true) :
+    streamOf i r.view keys ∈ exported true reg sc i keys := by
+  rw [exported_eq reg sc i keys hv, (findViews_spec reg sc i).1 ⟨r, hr, ha⟩]
+  simp only [List.map_map, List.mem_map, List.mem_filter]
+  exact ⟨r, ⟨hr, ha⟩, rfl⟩
+
+/-- …and nothing else is exported for the instrument: every exported stream is the stream of a registered view that
+    applies, or — when none applies — the default stream -/
+theorem exported_iff (reg : List Registered) (sc : View.Scope) (i : Instr) (keys : List Bytes) (s : Stream)
+    (hv : validInstrument i.name i.unit = true) :
+    s ∈ exported true reg sc i keys ↔
+      (∃ r ∈ reg, applies r sc i = true ∧ s = streamOf i r.view keys) ∨
+      ((∀ r ∈ reg, applies r sc i = false) ∧ s = streamOf i defaultView keys) := by
+  rw [exported_eq reg sc i keys hv]
+  by_cases hex : ∃ r ∈ reg, applies r sc i = true
+  · rw [(findViews_spec reg sc i).1 hex]
+    simp only [List.map_map, List.mem_map, List.mem_filter, Function.comp]
+    constructor
+    · rintro ⟨r, ⟨hr, ha⟩, rfl⟩
+      exact Or.inl ⟨r, hr, ha, rfl⟩
+    · rintro (⟨r, hr, ha, rfl⟩ | ⟨hno, _⟩)
+      · exact ⟨r, ⟨hr, ha⟩, rfl⟩
+      · obtain ⟨r, hr, ha⟩ := hex
+        rw [hno r hr] at ha; exact absurd ha (by decide)
+  · have hno : ∀ r ∈ reg, applies r sc i = false := by
+      intro r hr
+      cases ha : applies r sc i with
+      | false => rfl
+      | true => exact absurd ⟨r, hr, ha⟩ hex
+    rw [(findViews_spec reg sc i).2 hno]
+    simp only [List.map_cons, List.map_nil, List.mem_singleton]
+    constructor
+    · intro h; exact Or.inr ⟨hno, h⟩
+    · rintro (⟨r, hr, ha, _⟩ | ⟨_, h⟩)
+      · rw [hno r hr] at ha; exact absurd ha (by decide)
+      · exact h
+
+/-- one stream per applying view, in registration order and with multiplicity: two views that shape identical streams
+    (for instance by renaming to the same stream name) still yield two streams -/
+theorem exported_count (reg : List Registered) (sc : View.Scope) (i : Instr) (keys : List Bytes)
+    (hv : validInstrument i.name i.unit = true) (hex : ∃ r ∈ reg, applies r sc i = true) :
+    exported true reg sc i keys = (reg.filter (applies · sc i)).map (fun r => streamOf i r.view keys) := by
+  rw [exported_eq reg sc i keys hv, (findViews_spec reg sc i).1 hex]
+  simp [List.map_map, Function.comp]
+
+theorem aswas_last_only (pre post : List Registered) (r : Registered) (sc : View.Scope) (i : Instr)
     (keys : List Bytes) (hv : validInstrument i.name i.unit = true) (ha : applies r sc i = true)
     (hlast : ∀ r' ∈ post, applies r' sc i = false) :
-    exported true (pre ++ r :: post) sc i keys = [streamOf i r.view keys] := by
+    exportedAsWas true (pre ++ r :: post) sc i keys = [streamOf i r.view keys] := by
   have hpost : post.filter (applies · sc i) = [] := List.filter_eq_nil_iff.2 (fun a ha' => by simp [hlast a ha'])
   have hfilter : (pre ++ r :: post).filter (applies · sc i) = pre.filter (applies · sc i) ++ [r] := by
     rw [List.filter_append, List.filter_cons, if_pos ha, hpost]
   have hfind : findViews (pre ++ r :: post) sc i = (pre.filter (applies · sc i)).map (·.view) ++ [r.view] := by
     rw [(findViews_spec _ sc i).1 ⟨r, by simp, ha⟩, hfilter]; simp
-  unfold exported storages
+  unfold exportedAsWas storages
   rw [hfind]
   simp [hv]
 
-/-- the full statement "every applying view yields its stream" is false of the code: two applying views, only the later
-    one's stream is exported (views `*`→`first` and `*`→`second` on counter `reqs`) -/
-theorem view_shadowed_witness :
+/-- D09, the registry as it was (keyed by the instrument name): two applying views, only the later one's stream was
+    exported (views `*`→`first` and `*`→`second` on counter `reqs`); now both are -/
+theorem view_shadowed_aswas_witness :
     let v1 : View := ⟨[102, 105, 114, 115, 116], [], [], .sum, none, none⟩
     let v2 : View := ⟨[115, 101, 99, 111, 110, 100], [], [], .sum, none, none⟩
     let sel : InstrSel := ⟨.counter, .all, []⟩
     let i : Instr := ⟨.counter, [114, 101, 113, 115], [], []⟩
     let sc : View.Scope := ⟨[109], [], []⟩
-    applies ⟨sel, ⟨[], [], []⟩, v1⟩ sc i = true ∧ applies ⟨sel, ⟨[], [], []⟩, v2⟩ sc i = true ∧
-    exported true [⟨sel, ⟨[], [], []⟩, v1⟩, ⟨sel, ⟨[], [], []⟩, v2⟩] sc i [[97], [98]] = [streamOf i v2 [[97], [98]]] ∧
-    streamOf i v1 [[97], [98]] ∉ exported true [⟨sel, ⟨[], [], []⟩, v1⟩, ⟨sel, ⟨[], [], []⟩, v2⟩] sc i [[97], [98]] := by
+    let reg : List Registered := [⟨sel, ⟨[], [], []⟩, v1⟩, ⟨sel, ⟨[], [], []⟩, v2⟩]
+    exportedAsWas true reg sc i [[97], [98]] = [streamOf i v2 [[97], [98]]] ∧
+    streamOf i v1 [[97], [98]] ∉ exportedAsWas true reg sc i [[97], [98]] ∧
+    exported true reg sc i [[97], [98]] = [streamOf i v1 [[97], [98]], streamOf i v2 [[97], [98]]] := by
+  intro v1 v2 sel i sc reg
+  have a1 : applies ⟨sel, ⟨[], [], []⟩, v1⟩ sc i = true := by decide
+  have a2 : applies ⟨sel, ⟨[], [], []⟩, v2⟩ sc i = true := by decide
+  have hv : validInstrument i.name i.unit = true := by
+    unfold validInstrument
+    rw [(validName_iff _).2 ⟨114, [101, 113, 115], rfl, by decide, by decide, by decide⟩,
+      (validUnit_iff _).2 ⟨by decide, by intro c hc; simp [i] at hc⟩]
+    rfl
+  have he : exportedAsWas true reg sc i [[97], [98]] = [streamOf i v2 [[97], [98]]] :=
+    aswas_last_only [⟨sel, ⟨[], [], []⟩, v1⟩] [] ⟨sel, ⟨[], [], []⟩, v2⟩ sc i [[97], [98]] hv a2 (by simp)
+  refine ⟨he, ?_, ?_⟩
+  · rw [he]; decide
+  · rw [exported_count reg sc i _ hv ⟨_, by simp [reg], a1⟩]
+    simp [reg, a1, a2]
+
+/-- two views that rename to the same stream name: both streams are exported (same name, their own aggregations) -/
+theorem same_stream_name_both_exported :
+    let v1 : View := ⟨[115], [], [], .sum, none, none⟩
+    let v2 : View := ⟨[115], [], [], .lastValue, none, none⟩
+    let sel : InstrSel := ⟨.counter, .all, []⟩
+    let i : Instr := ⟨.counter, [114, 101, 113, 115], [], []⟩
+    let sc : View.Scope := ⟨[109], [], []⟩
+    exported true [⟨sel, ⟨[], [], []⟩, v1⟩, ⟨sel, ⟨[], [], []⟩, v2⟩] sc i [[97]] =
+      [⟨[115], [], [], .counter, .sum, [[97]], none⟩, ⟨[115], [], [], .counter, .lastValue, [[97]], none⟩] := by
   intro v1 v2 sel i sc
   have a1 : applies ⟨sel, ⟨[], [], []⟩, v1⟩ sc i = true := by decide
   have a2 : applies ⟨sel, ⟨[], [], []⟩, v2⟩ sc i = true := by decide
@@ -481,11 +553,123 @@ theorem view_shadowed_witness :
     rw [(validName_iff _).2 ⟨114, [101, 113, 115], rfl, by decide, by decide, by decide⟩,
       (validUnit_iff _).2 ⟨by decide, by intro c hc; simp [i] at hc⟩]
     rfl
-  have he := view_stream_exported_partial [⟨sel, ⟨[], [], []⟩, v1⟩] [] ⟨sel, ⟨[], [], []⟩, v2⟩ sc i [[97], [98]] hv a2 (by simp)
-  refine ⟨a1, a2, he, ?_⟩
-  have he' : exported true [⟨sel, ⟨[], [], []⟩, v1⟩, ⟨sel, ⟨[], [], []⟩, v2⟩] sc i [[97], [98]] = [streamOf i v2 [[97], [98]]] := he
-  rw [he']
+  rw [exported_count _ sc i _ hv ⟨_, by simp, a1⟩]
+  simp [a1, a2]
   decide
+
+/-! ### the registry over several handles -/
+
+def entryKey (i : Instr) (isDouble : Bool) (idx : Nat) : Key := ⟨i.name, i.type, isDouble, idx⟩
+
+theorem attachAll_fresh (i : Instr) (dbl : Bool) (v : Nat) : ∀ (l : List Stream) (n : Nat) (st : List Entry),
+    (∀ e ∈ st, ∀ idx, n ≤ idx → e.key ≠ entryKey i dbl idx) →
+    attachAll st i dbl v (l.zipIdx n) = st ++ (l.zipIdx n).map (fun p => ⟨entryKey i dbl p.2, p.1, [v]⟩) := by
+  intro l
+  induction l with
+  | nil => intro n st _; simp [attachAll]
+  | cons s rest ih =>
+    intro n st h
+    simp only [List.zipIdx_cons, attachAll, List.map_cons]
+    have hnone : st.any (fun e => decide (e.key = (⟨i.name, i.type, dbl, n⟩ : Key))) = false := by
+      rw [List.any_eq_false]
+      intro e he
+      have := h e he n (Nat.le_refl _)
+      simpa [entryKey] using this
+    have hstep : attachOrAdd st ⟨i.name, i.type, dbl, n⟩ s v = st ++ [⟨entryKey i dbl n, s, [v]⟩] := by
+      unfold attachOrAdd; rw [hnone]; rfl
+    rw [hstep, ih (n + 1)]
+    · simp
+    · intro e he idx hidx
+      rcases List.mem_append.1 he with he | he
+      · exact h e he idx (by omega)
+      · simp only [List.mem_singleton] at he
+        subst he
+        simp only [entryKey, ne_eq, Key.mk.injEq, true_and]
+        omega
+
+/-- **the first handle of an instrument registers one storage per view found**: for an instrument whose name, type and
+    value type are new to the meter, the registry grows by exactly its streams, each holding the recorded value -/
+theorem first_handle_registers_streams (reg : List Registered) (sc : View.Scope) (keys : List Bytes) (st : List Entry)
+    (i : Instr) (dbl : Bool) (v : Nat) (hv : validInstrument i.name i.unit = true)
+    (hnew : ∀ e ∈ st, ∀ idx, e.key ≠ entryKey i dbl idx) :
+    createAndRecord true reg sc keys st i dbl v =
+      st ++ ((exported true reg sc i keys).zipIdx).map (fun p => ⟨entryKey i dbl p.2, p.1, [v]⟩) := by
+  unfold createAndRecord exported
+  simp only [hv, Bool.not_true, Bool.or_false, Bool.false_eq_true, if_false]
+  exact attachAll_fresh i dbl v _ 0 st (fun e he idx _ => hnew e he idx)
+
+theorem attachOrAdd_present (st : List Entry) (k : Key) (s : Stream) (v : Nat) (h : ∃ e ∈ st, e.key = k) :
+    (attachOrAdd st k s v).map (·.key) = st.map (·.key) ∧ (attachOrAdd st k s v).map (·.stream) = st.map (·.stream) := by
+  have hany : st.any (fun e => decide (e.key = k)) = true := by
+    rw [List.any_eq_true]
+    obtain ⟨e, he, hk⟩ := h
+    exact ⟨e, he, by simpa using hk⟩
+  unfold attachOrAdd
+  rw [hany]
+  simp only [if_true, List.map_map]
+  constructor
+  · apply List.map_congr_left
+    intro e _
+    simp only [Function.comp]
+    split <;> rfl
+  · apply List.map_congr_left
+    intro e _
+    simp only [Function.comp]
+    split <;> rfl
+
+theorem attachAll_present (i : Instr) (dbl : Bool) (v : Nat) : ∀ (L : List (Stream × Nat)) (st : List Entry),
+    (∀ p ∈ L, ∃ e ∈ st, e.key = entryKey i dbl p.2) →
+    (attachAll st i dbl v L).map (·.key) = st.map (·.key) ∧ (attachAll st i dbl v L).map (·.stream) = st.map (·.stream) := by
+  intro L
+  induction L with
+  | nil => intro st _; exact ⟨rfl, rfl⟩
+  | cons p rest ih =>
+    intro st h
+    obtain ⟨s, idx⟩ := p
+    simp only [attachAll]
+    have hp := attachOrAdd_present st ⟨i.name, i.type, dbl, idx⟩ s v (h (s, idx) (by simp))
+    have hrest : ∀ q ∈ rest, ∃ e ∈ attachOrAdd st ⟨i.name, i.type, dbl, idx⟩ s v, e.key = entryKey i dbl q.2 := by
+      intro q hq
+      obtain ⟨e, he, hk⟩ := h q (by simp [hq])
+      have : entryKey i dbl q.2 ∈ (attachOrAdd st ⟨i.name, i.type, dbl, idx⟩ s v).map (·.key) := by
+        rw [hp.1]; exact List.mem_map.2 ⟨e, he, hk⟩
+      obtain ⟨e', he', hk'⟩ := List.mem_map.1 this
+      exact ⟨e', he', hk'⟩
+    obtain ⟨h1, h2⟩ := ih _ hrest
+    exact ⟨h1.trans hp.1, h2.trans hp.2⟩
+
+/-- **a second handle of the same instrument adds no stream**: when the storages of the instrument are registered
+    already (one per view found), a further handle attaches to them — the registry keeps its keys and its streams, only
+    the recorded values grow -/
+theorem second_handle_no_new_stream (reg : List Registered) (sc : View.Scope) (keys : List Bytes) (st : List Entry)
+    (i : Instr) (dbl : Bool) (v : Nat)
+    (hreg : ∀ idx, idx < (storages reg sc i keys).length → ∃ e ∈ st, e.key = entryKey i dbl idx) (en : Bool) :
+    (createAndRecord en reg sc keys st i dbl v).map (·.key) = st.map (·.key) ∧
+    (createAndRecord en reg sc keys st i dbl v).map (·.stream) = st.map (·.stream) := by
+  unfold createAndRecord
+  split
+  · exact ⟨rfl, rfl⟩
+  · apply attachAll_present
+    intro p hp
+    have := List.mem_zipIdx hp
+    exact hreg p.2 (by omega)
+
+/-- after the first handle the hypothesis of `second_handle_no_new_stream` holds: creating the same instrument twice
+    leaves the streams the first creation registered -/
+theorem handle_twice (reg : List Registered) (sc : View.Scope) (keys : List Bytes) (st : List Entry)
+    (i : Instr) (dbl : Bool) (v1 v2 : Nat) (hv : validInstrument i.name i.unit = true)
+    (hnew : ∀ e ∈ st, ∀ idx, e.key ≠ entryKey i dbl idx) :
+    (createAndRecord true reg sc keys (createAndRecord true reg sc keys st i dbl v1) i dbl v2).map (·.stream) =
+      (createAndRecord true reg sc keys st i dbl v1).map (·.stream) := by
+  refine (second_handle_no_new_stream reg sc keys _ i dbl v2 ?_ true).2
+  intro idx hidx
+  rw [first_handle_registers_streams reg sc keys st i dbl v1 hv hnew]
+  have hex : exported true reg sc i keys = storages reg sc i keys := by unfold exported; simp [hv]
+  rw [hex]
+  obtain ⟨s, hs⟩ : ∃ s, (storages reg sc i keys)[idx]? = some s := ⟨_, List.getElem?_eq_getElem hidx⟩
+  refine ⟨⟨entryKey i dbl idx, s, [v1]⟩, ?_, rfl⟩
+  apply List.mem_append_right
+  exact List.mem_map.2 ⟨(s, idx), List.mem_zipIdx_iff_getElem?.2 (by simpa using hs), rfl⟩
 
 /-- the default explicit bucket boundaries, and D63: the observable path hands the view's aggregation config on -/
 theorem histogram_defaults : Gen.defaultHistogramBounds = [0, 5, 10, 25, 50, 75, 100, 250, 500, 750, 1000, 2500, 5000, 7500, 10000] ∧
@@ -551,7 +735,7 @@ theorem unmatched_gets_type_default (reg : List Registered) (sc : View.Scope) (i
       if defaultAgg i.type = .histogram then some Gen.defaultHistogramBounds else none⟩] := by
   unfold exported storages
   rw [(findViews_spec reg sc i).2 hno]
-  simp only [hv, Bool.not_true, Bool.or_false, Bool.false_eq_true, if_false, List.map_cons, List.map_nil, List.getLast?_singleton]
+  simp only [hv, Bool.not_true, Bool.or_false, Bool.false_eq_true, if_false, List.map_cons, List.map_nil]
   unfold streamOf defaultView resolveAgg filterKeys
   rw [gen_literals.2.2.2]
   simp
